@@ -75,6 +75,7 @@ void md_case(Ctx &c) {
     } else {
         int fam = int(r.below(6));
         if (r.chance(1, 40)) fam = 6;
+        else if (r.chance(1, 40)) fam = 7;
         size_t n;
         T u; // coordinates drawn from [0, u]
         auto rnd_pt = [&](T lim) {
@@ -144,6 +145,22 @@ void md_case(Ctx &c) {
                 u = std::min<T>(maxc, T((T(1) << (3 + r.below(4))) - 1));
                 n = (size_t(1) << 15) + r.below(size_t(1) << 15);
                 for (size_t i = 0; i < n; ++i) mc.pts.push_back(rnd_pt(u));
+                break;
+            }
+            case 7: { // >= 2^15 points whose LAST few codes break the trend of the rest: a body in the lower part of the space
+                // (or over all of it) and up to 25 points packed into the far corner. n is arbitrary modulo the chunk count,
+                // so a builder that mishandles the remainder of n / chunks leaves exactly these points without a segment.
+                // The corner points come first in `pts`, so that all of them are membership probes.
+                mc.family = "big_far_tail";
+                u = r.chance(1, 2) ? maxc : T(std::max<uint64_t>(1, uint64_t(maxc) / 8));
+                n = (size_t(1) << 15) + r.below(4096);
+                size_t tail = 1 + r.below(25);
+                for (size_t i = 0; i < tail; ++i) {
+                    P p;
+                    for (size_t d = 0; d < D; ++d) p[d] = T(maxc - T(r.below(std::min<uint64_t>(maxc, 3) + 1)));
+                    mc.pts.push_back(p);
+                }
+                for (size_t i = tail; i < n; ++i) mc.pts.push_back(rnd_pt(u));
                 break;
             }
             default: { // tiny point sets
